@@ -1,6 +1,7 @@
 package icc
 
 import (
+	"bytes"
 	"fmt"
 	"github.com/mandykoh/prism/meta/binary"
 	"io"
@@ -213,7 +214,7 @@ func (pr *ProfileReader) readTagTable(tagTable *TagTable) error {
 	}
 	tagIndex := make(map[Signature]tagIndexEntry)
 
-	endOfTagData := uint32(0)
+	endOfTagData := uint64(0)
 	for i := uint32(0); i < tagCount; i++ {
 		sig, err := binary.ReadU32Big(pr.reader)
 		if err != nil {
@@ -230,8 +231,8 @@ func (pr *ProfileReader) readTagTable(tagTable *TagTable) error {
 			return err
 		}
 
-		if offset+size > endOfTagData {
-			endOfTagData = offset + size
+		if end := uint64(offset) + uint64(size); end > endOfTagData {
+			endOfTagData = end
 		}
 
 		tagIndex[Signature(sig)] = tagIndexEntry{
@@ -240,19 +241,29 @@ func (pr *ProfileReader) readTagTable(tagTable *TagTable) error {
 		}
 	}
 
-	tagDataOffset := tagTableOffset + 4 + (tagCount * 12)
-	tagData := make([]byte, endOfTagData-tagDataOffset)
-	bytesRead, err := io.ReadFull(pr.reader, tagData)
-	if err == io.ErrUnexpectedEOF {
-		return fmt.Errorf("expected %d bytes of tag data but only got %d", len(tagData), bytesRead)
-	}
-	if err != nil {
-		return err
+	// Offsets and sizes are untrusted: work in 64 bits so that nothing wraps,
+	// and let the buffer grow with the data that actually arrives rather than
+	// allocating the declared length up front.
+	tagDataOffset := uint64(tagTableOffset) + 4 + uint64(tagCount)*12
+	var tagData []byte
+	if endOfTagData > tagDataOffset {
+		tagDataBuffer := bytes.Buffer{}
+		bytesRead, err := io.CopyN(&tagDataBuffer, pr.reader, int64(endOfTagData-tagDataOffset))
+		if err == io.EOF && bytesRead > 0 {
+			return fmt.Errorf("expected %d bytes of tag data but only got %d", endOfTagData-tagDataOffset, bytesRead)
+		}
+		if err != nil {
+			return err
+		}
+		tagData = tagDataBuffer.Bytes()
 	}
 
 	for sig, entry := range tagIndex {
-		startOffset := entry.offset - tagDataOffset
-		endOffset := startOffset + entry.size
+		startOffset := uint64(entry.offset) - tagDataOffset
+		endOffset := startOffset + uint64(entry.size)
+		if uint64(entry.offset) < tagDataOffset || endOffset > uint64(len(tagData)) {
+			return fmt.Errorf("tag %v lies outside the tag data", sig)
+		}
 		tagTable.add(sig, tagData[startOffset:endOffset])
 	}
 
